@@ -80,7 +80,8 @@ PROPS["C02"] = dict(
           "orderings of one publish with one join through gates at join.begin/snapshotted/registered and write.cached/sent, cache on/off; "
           "(3) seeded-delay stress of several joins racing a running publisher. cache_gop on and off, H.264 and H.265. A case is distinct "
           "by its sequence shape / forced ordering / join-window size"
-          " FLV sequences draw the AAC AudioTagHeader byte from the eight values ipchub's packetiser writes (mono/stereo x 5.5/11/22/44 kHz)"),
+          " FLV sequences draw the AAC AudioTagHeader byte from the eight values ipchub's packetiser writes (mono/stereo x 5.5/11/22/44 kHz)"
+          " FLV through the real pipeline (c02_flvpipe.go): H.265 RTP in, FLV tags out of the stream's own depacketiser and muxer, random-access pictures of type IDR / BLA / CRA; a late FLV joiner's replay must start at the most recent random-access picture, flagged key"),
     level_text=("Reference-model monitor: for every join the received sequence must be P ++ G ++ L for some cut inside the join window "
                 "(computed by a reference cache model from the generator's ground truth); exhaustive in the join position, schedule "
                 "enumeration for the publish x join race"),
@@ -99,7 +100,8 @@ PROPS["C01"] = dict(
           "and detach goroutines with seeded delays at 8 hook points, interval oracle on the shared logical clock. Distinct by (packet count "
           "class, consumer count)"
           ' Transports part: one stream is played over rtsp-tcp, ws-rtsp, wsp, rtsp-udp, multicast (shard 0), http-flv and ws-flv at once; the published sequence contains a back-to-back burst of 48 packets of 9-15 KB (more than the session write buffer within one flush tick); a torn interleaved byte stream is reported as such'
-          ' Multicast: an earlier member plays and leaves before the judged member joins (the proxy is restarted per generation); an attached datagram consumer that is given nothing at all is a violation'),
+          ' Multicast: an earlier member plays and leaves before the judged member joins (the proxy is restarted per generation); an attached datagram consumer that is given nothing at all is a violation'
+          ' Control channel: sender reports are published on the video control channel and must arrive intact on the negotiated RTCP destination of the RTSP/TCP and RTSP/UDP players (the UDP player binds its RTCP socket below its RTP port in even runs)'),
     level_text=("Recorded-history monitor over the real fan-out path: at-most-once, publish order, byte identity (hash at publish vs hash at "
                 "delivery vs hash after the run), completeness over the attached interval, 1-vs-N independence"),
     level_note=("core (media package) part; per-transport delivery (RTSP/TCP, UDP, ws-rtsp, WSP, HTTP-FLV) is exercised at service level by "
@@ -135,7 +137,8 @@ PROPS["C05"] = dict(
           "Unregist(retired) after Regist(successor), Close then Get; (3) sequential random histories (5-40 steps) with Get/Count/Infos "
           "against the model after every step; (4) the idle-close decision for 6 audience kinds x 2 close reasons. Distinct by history shape"
           " Spellings part: generated non-canonical spellings of one path (case, blanks, missing leading slash, doubled slashes, '.' elements and 'x/..' detours anywhere including as the last element), accepted by an independent canonicaliser, must all name one registry key (create/lookup/replace/unregister/count under three different spellings)"
-          " Idle cases include 'HLS segment requested just now' (playlist refresh followed by a segment request) next to 'playlist requested just now'"),
+          " Idle cases include 'HLS segment requested just now' (playlist refresh followed by a segment request) next to 'playlist requested just now'"
+          ' Counts under concurrent stop: one consumer is detached twice at the same moment (first StopConsume held at media.remove.loaded); count, listing and idle decision must agree afterwards'),
     level_text=("Linearizability checking of recorded concurrent histories (porcupine) against a 10-line sequential model of the registry, "
                 "plus forced schedules and model equality at quiescent points"),
     level_note="library level (media package); GetOrCreate races and the REST listing/DELETE are exercised in C20 / service-level scenarios",
@@ -190,7 +193,8 @@ PROPS["C11"] = dict(
           "Session id and tries 257 computed tokens, and a WSP data channel joining a foreign control channel. Distinct by "
           "(entry, action, credential kind, reference decision, outcome)"
           " A third of the HTTP-borne probes additionally claim to be the administrator in request headers a normal client never sends (the server's internal identity header under both spellings, X-Forwarded-User, Username); the reference verdict depends on the token alone"
-          ' Four source paths: three inside the subtrees the rights name and one proper ancestor of them (two levels up)'),
+          ' Four source paths: three inside the subtrees the rights name and one proper ancestor of them (two levels up)'
+          " Directed: a user whose right covers '<stream>/+' but not the stream asks for the listed HLS segments with the extension in other spellings (.TS, .Ts, .tS)"),
     level_text=("Reference-monitor oracle: allow(user, action, path) from the table as last saved (C16 reference matcher) versus the outcome class "
                 "(granted = media bytes / 2xx / registered stream; refused = 401/403) seen by scripted clients on real sockets"),
     level_note=("'a token cannot be computed from disclosed identifiers' is decided only for the implemented attacker strategy; stream query APIs "
@@ -208,7 +212,8 @@ PROPS["C20"] = dict(
           "(camera disconnects after 150 packets) per authentication kind; requester = HTTP-FLV or RTSP play; NetTimeout overridden to 1.2 s; "
           "after every script a second request must reach the camera again; plus 2-8 simultaneous first requests with seeded delays at the "
           "GetOrCreate/Regist hook points. Distinct by script name"
-          " Success scripts also use an exact route whose camera URL carries a query string; the fake camera accepts Digest credentials only when the uri directive equals the Request-URI. Concurrent first requests: invariant 'open camera connections <= pull streams that are registered, have a consumer or had one while live', plus a forced ordering in which the first registered pull is displaced before its requester attaches"),
+          " Success scripts also use an exact route whose camera URL carries a query string; the fake camera accepts Digest credentials only when the uri directive equals the Request-URI. Concurrent first requests: invariant 'open camera connections <= pull streams that are registered, have a consumer or had one while live', plus a forced ordering in which the first registered pull is displaced before its requester attaches"
+          ' Single requester with a late pull goroutine: 300 ms delay at rtsp.pull.enter; the one request must cause one pull and the requester must receive media'),
     level_text=("Fault enumeration over the camera's behaviour at every handshake step against the real pull client and the real service: "
                 "requester outcome (404 / orderly close / media), registry, RTSP connection counter, camera-side connection state and the "
                 "pull goroutine ledger decide; a handshake goroutine parked in a network read long after NetTimeout is a violation"),
